@@ -18,6 +18,7 @@
 #include <etl/_type_traits/is_implicit_default_constructible.hpp>
 #include <etl/_type_traits/is_move_assignable.hpp>
 #include <etl/_type_traits/is_nothrow_swappable.hpp>
+#include <etl/_type_traits/unwrap_reference.hpp>
 #include <etl/_utility/forward.hpp>
 #include <etl/_utility/move.hpp>
 #include <etl/_utility/swap.hpp>
@@ -167,7 +168,7 @@ constexpr auto swap(pair<T1, T2>& lhs, pair<T1, T2>& rhs) noexcept(noexcept(lhs.
 ///
 /// https://en.cppreference.com/w/cpp/utility/pair/make_pair
 template <typename T1, typename T2>
-[[nodiscard]] constexpr auto make_pair(T1&& t, T2&& u) -> pair<decay_t<T1>, decay_t<T2>>
+[[nodiscard]] constexpr auto make_pair(T1&& t, T2&& u) -> pair<unwrap_ref_decay_t<T1>, unwrap_ref_decay_t<T2>>
 {
     return {etl::forward<T1>(t), etl::forward<T2>(u)};
 }
